@@ -692,6 +692,25 @@ func (s *scen) run() core.Result {
 		if cerr != nil {
 			r.Class = "error:" + errCode(cerr).String()
 		}
+		{
+			// the same options reached through SetOptions on a converter built with the complementary ones
+			c := s.co
+			cv2 := j2t.NewBinaryConv(conv.Options{WriteRequireField: !c.WriteRequireField, WriteDefaultField: !c.WriteDefaultField, WriteOptionalField: !c.WriteOptionalField, DisallowUnknownField: !c.DisallowUnknownField})
+			cv2.SetOptions(c)
+			var o2 []byte
+			var e2 error
+			if pi := core.Catch(func() { o2, e2 = cv2.Do(context.Background(), d1, doc) }); pi != nil {
+				r.Class = "panic"
+				r.Add("j2t|SetOptions|panic@"+pi.Site+":"+core.PanicClass(pi.Val), "doc %s\n%s", doc, pi.Val)
+				return r
+			}
+			r.Count("conversions", 1)
+			if (e2 == nil) != (cerr == nil) || (e2 == nil && !bytes.Equal(o2, out)) {
+				r.Class = "violation"
+				r.Add("j2t|SetOptions|differs-from-converter-built-with-the-options", "doc %s, options %s: NewBinaryConv(opts) %x err=%v, SetOptions(opts) %x err=%v", doc, s.optName, out, cerr, o2, e2)
+				return r
+			}
+		}
 		for _, k := range s.ks {
 			buf := make([]byte, 0, len(doc)+k)
 			var e2 error
@@ -753,6 +772,24 @@ func (s *scen) run() core.Result {
 		}
 		if cerr != nil {
 			r.Class = "error:" + errCode(cerr).String()
+		}
+		{
+			c := s.co
+			cv2 := t2j.NewBinaryConv(conv.Options{WriteRequireField: !c.WriteRequireField, WriteDefaultField: !c.WriteDefaultField, WriteOptionalField: !c.WriteOptionalField, DisallowUnknownField: !c.DisallowUnknownField})
+			cv2.SetOptions(c)
+			var o2 []byte
+			var e2 error
+			if pi := core.Catch(func() { o2, e2 = cv2.Do(context.Background(), d1resp, msg) }); pi != nil {
+				r.Class = "panic"
+				r.Add("t2j|SetOptions|panic@"+pi.Site+":"+core.PanicClass(pi.Val), "msg %x\n%s", msg, pi.Val)
+				return r
+			}
+			r.Count("conversions", 1)
+			if (e2 == nil) != (cerr == nil) || (e2 == nil && !bytes.Equal(o2, out)) {
+				r.Class = "violation"
+				r.Add("t2j|SetOptions|differs-from-converter-built-with-the-options", "msg %x, options %s: NewBinaryConv(opts) %s err=%v, SetOptions(opts) %s err=%v", msg, s.optName, out, cerr, o2, e2)
+				return r
+			}
 		}
 		for _, c := range s.dirty {
 			vsync.Controlled = true
